@@ -314,6 +314,12 @@ func c08(c *Ctx) {
 			c.Guarded("handoff/only-after-validation", ho, lh, gs(G(`\(litefs\.\(\*Store\)\.Handoff\$1\(.*\) == nil\)|\(nil == litefs\.\(\*Store\)\.Handoff\$1\(.*\)\)|\(.*\$\d+\(.*\) == nil\)`, true)), 1, "lease.Handoff is called only when the validation returned nil", "")
 		}
 	}
+	lk := "litefs.(*Store).changeSetSubscriberByNodeID"
+	c.GuardedPaths("handoff/lookup-exact", lk, func(in ssa.Instruction) bool {
+		r, ok := in.(*ssa.Return)
+		return ok && len(r.Results) == 1 && p.Render(returnedValue(r, 0)) != "nil" && !(r.Block().Index != 0 && len(r.Block().Preds) == 0)
+	}, [][]*Guard{{G(`\(litefs\.\(\*ChangeSetSubscriber\)\.NodeID\(.*\) == p1\)|\(p1 == litefs\.\(\*ChangeSetSubscriber\)\.NodeID\(.*\)\)`, true)}}, 1,
+		"the subscriber lookup returns a subscriber only when its node id equals the requested one (nil otherwise)", "a handoff transfers the lease only to the requested, currently connected replica: a lookup that falls back to 'some subscriber' hands the lease to the wrong node")
 	ph := "litefs.(*Store).processHandoff"
 	send := func(in ssa.Instruction) bool { _, ok := in.(*ssa.Select); return ok }
 	c.Guarded("handoff/process/still-connected", ph, send, gs(GP("(litefs.(*Store).SubscriberByNodeID(p0, p2) == nil)", false)), 1, "the lease id is sent only when the target is still connected", "")
